@@ -3,4 +3,4 @@
 WT=/tmp/wt/$1; shift
 IDS="$@"; [ -z "$IDS" ] && IDS="C01 C02 C03 C04 C05 C06 C07 C08 C09 C10 C11 C12 C13 C14 C15 C16 C17 C18 C19 C20"
 (cd $WT && /venv/bin/python -m pytest -q -p no:cacheprovider --timeout=900 2>&1 | tail -1)
-for id in $IDS; do out=$(IXAI_REPO=$WT /verif/bin/check $id 2>&1); rc=$?; if [ $rc -ne 0 ]; then echo "$id rc=$rc"; echo "$out" | tail -6 | cut -c1-330; else echo "$id ok :: $(echo "$out" | grep -c KNOWN)"; fi; done
+for id in $IDS; do out=$(IXAI_REPO=$WT "$(cd "$(dirname "$0")/.." && pwd)"/bin/check $id 2>&1); rc=$?; if [ $rc -ne 0 ]; then echo "$id rc=$rc"; echo "$out" | tail -6 | cut -c1-330; else echo "$id ok :: $(echo "$out" | grep -c KNOWN)"; fi; done
